@@ -463,6 +463,41 @@ def rule_WM9(rep, prog):
                 sample={"dq_push": sorted(pushers)})
 
 
+def rule_AI11(rep, prog, q):
+    from .C13 import linform
+    rid = rep.rule("C01-AI11", "pool growth when every worker is blocked: the monitor's poke for a queue with pending work and NO runnable worker may grow the pool up to "
+                   "the tracking limit (floor = target_runnable - WORKQ_MAX_TRACKED_TIDS), not merely to the oversubscription factor", floor=1)
+    fn = prog.fn("_dispatch_workq_monitor_pools", required=False)
+    if fn is None:
+        rep.unknown(rid, "function _dispatch_workq_monitor_pools not found (internal workqueue not compiled?)")
+        return
+    rep.saw(fn)
+    k = {"WORKQ_MAX_TRACKED_TIDS": consts.get(["DISPATCH_WORKQ_MAX_PTHREAD_COUNT"])["DISPATCH_WORKQ_MAX_PTHREAD_COUNT"]}   # WORKQ_MAX_TRACKED_TIDS is a file-local alias of it
+    pokes = calls_named(fn, "_dispatch_root_queue_poke")
+    stalled = []
+    for c in pokes:
+        cx = paths.dom_ctx(fn, c)
+        for cid, tv in cx.truth.items():
+            t = fn.insts[cid]
+            if t.op == "icmp" and t.d["pred"] in ("eq", "ne") and tv == (t.d["pred"] == "eq") and t.ops[1][0] == "c" and t.ops[1][1] == 0:
+                l = fn.inst(t.ops[0])
+                if l is not None and l.op == "load" and "num_runnable" in prog.fields(l):
+                    stalled.append(c)
+    if not stalled:
+        rep.unknown(rid, "no poke under num_runnable == 0 found in _dispatch_workq_monitor_pools")
+    for c in stalled:
+        lf = linform(fn, c.ops[2])
+        loads = [a for a, co in lf.items() if isinstance(a, tuple) and a[0] == "i" and fn.insts[a[1]].op == "load" and "target_runnable" in prog.fields(fn.insts[a[1]]) and co == 1]
+        const = lf.get(1, 0)
+        if const >= 1 << 31:
+            const -= 1 << 32
+        ok = len(loads) == 1 and len(lf) == 2 and const == -k["WORKQ_MAX_TRACKED_TIDS"]
+        rep.require(rid, ok, c.loc, fn.name, "stalled-pool-floor",
+                    "_dispatch_workq_monitor_pools pokes a queue whose workers are all blocked with floor %s instead of target_runnable - %d: the pool stops growing "
+                    "at a small multiple of the CPU count, so when more items than that block on a later item of the same global queue the later item never runs"
+                    % ({str(a): co for a, co in lf.items()}, k["WORKQ_MAX_TRACKED_TIDS"]), sample={"poke": c.loc})
+
+
 def run(rep, tier="quick", srcdir=None, only=None):
     prog, units = load(UNITS, tier, srcdir)
     rep.units = units
@@ -501,6 +536,11 @@ def run(rep, tier="quick", srcdir=None, only=None):
         # queues chained onto a workloop: draining more than one item must not fault on the anonymous wlh (shared with C03)
         from . import C03
         C03.rule_WL10(rep, prog, q)
+    if want("C01-AI11"):
+        rule_AI11(rep, ir.Program(build.facts_for(["event/workqueue"], srcdir=srcdir)), q)
+    if want("C03-MP11"):
+        from . import C03
+        C03.rule_MP11(rep, prog, q)
     if want("C04-MP4"):
         # the last reader's hand-over: DIRTY when drain-locked, otherwise take over / enqueue (shared with C04)
         from . import C04
